@@ -97,6 +97,23 @@ fn histories(dir: &str) -> Vec<(&'static str, Computation, i64)> {
     let step2 = call(R::FsCreateWriter, vec![s(&p2), b.err_marker(-2), thunk(lam(w2, step3))]);
     v.push(("create w1; create w2; close w2; write through the OPEN w1", call(R::FsCreateWriter, vec![s(&p1), b.err_marker(-1), thunk(lam(w1, step2))]), OK_MARK));
 
+    // T1: `create` means create-or-TRUNCATE: write a long text, close, create again, write a short one, close -> only the short one
+    let p3 = format!("{dir}/h3.txt");
+    std::fs::remove_file(&p3).ok();
+    let (w1, w2) = (b.fresh(), b.fresh());
+    let step6 = call(R::IoCloseWriter, vec![Value::Var(w2), b.err_marker(-6), thunk(ret(lit(OK_MARK)))]);
+    let step5 = call(R::IoWriteAll, vec![Value::Var(w2), bytes(b"short"), b.err_marker(-5), thunk(step6)]);
+    let step4 = call(R::FsCreateWriter, vec![s(&p3), b.err_marker(-4), thunk(lam(w2, step5))]);
+    let step3 = call(R::IoCloseWriter, vec![Value::Var(w1), b.err_marker(-3), thunk(step4)]);
+    let step2 = call(R::IoWriteAll, vec![Value::Var(w1), bytes(b"a long first version"), b.err_marker(-2), thunk(step3)]);
+    v.push(("create f; write long; close; create f again; write short; close  (file must hold only the short text)", call(R::FsCreateWriter, vec![s(&p3), b.err_marker(-1), thunk(lam(w1, step2))]), OK_MARK));
+
+    // A1: `append` never truncates: after the history above, append "+x" -> "short+x"
+    let w1 = b.fresh();
+    let step3 = call(R::IoCloseWriter, vec![Value::Var(w1), b.err_marker(-3), thunk(ret(lit(OK_MARK)))]);
+    let step2 = call(R::IoWriteAll, vec![Value::Var(w1), bytes(b"+x"), b.err_marker(-2), thunk(step3)]);
+    v.push(("append to f; write; close  (file must hold short+x)", call(R::FsAppendWriter, vec![s(&p3), b.err_marker(-1), thunk(lam(w1, step2))]), OK_MARK));
+
     // F1: opening a missing file reports NotFound (kind 0) through the error continuation
     v.push(("open a missing file", call(R::FsOpenReader, vec![s(&format!("{dir}/missing/none")), b.err_kind(), thunk(lam(b.fresh(), ret(lit(OK_MARK))))]), 0));
     v
@@ -111,7 +128,16 @@ pub fn witness(args: &[String]) -> i32 {
     for (name, c, want) in histories(&dir) {
         if let Some(o) = &only { if o != name { continue; } }
         n += 1;
-        let got = run(c);
+        let mut got = run(c);
+        // file-content postconditions of the two mode histories
+        if got == Ok(want) && name.starts_with("create f; write long") {
+            let content = std::fs::read(format!("{dir}/h3.txt")).unwrap_or_default();
+            if content != b"short" { got = Err(format!("file holds {:?} after create/write long/close/create/write short/close", String::from_utf8_lossy(&content))); }
+        }
+        if got == Ok(want) && name.starts_with("append to f") {
+            let content = std::fs::read(format!("{dir}/h3.txt")).unwrap_or_default();
+            if content != b"short+x" { got = Err(format!("file holds {:?} after appending +x to `short`", String::from_utf8_lossy(&content))); }
+        }
         if got != Ok(want) {
             let detail = format!("history `{name}` ended with {:?}, the contract requires {want} ({})", got, if want == CLOSED { "the Closed error kind through the error continuation" } else { "success" });
             println!("{{\"found\":true,\"tried\":{n},\"input\":{},\"clause\":\"CLOSED-STAY\",\"detail\":{}}}", esc(name), esc(&detail));
